@@ -273,6 +273,7 @@ impl Rng {
     fn below(&mut self, n: usize) -> usize { (self.next() % n as u64) as usize }
 }
 
+fn deep() -> bool { std::env::var("VERIF_TIER").map(|t| t == "thorough").unwrap_or(false) } // thorough tier: wider bounds
 fn main() {
     std::panic::set_hook(Box::new(|_| {}));
     let mut st = Stats { evals: 0, runs: 0, changed: 0, found: 0, per_op: BTreeMap::new() };
@@ -290,7 +291,7 @@ fn main() {
     } } } }
     // 2 and 3 blocks, up to 3 operations: fixed-seed samples
     let mut rng = Rng(0x9E37_79B9_7F4A_7C15);
-    for (nb, samples) in [(2usize, SAMPLES_2), (3usize, SAMPLES_3)] {
+    for (nb, samples) in [(2usize, SAMPLES_2 * if deep() { 8 } else { 1 }), (3usize, SAMPLES_3 * if deep() { 8 } else { 1 })] {
         for _ in 0..samples {
             let blocks: Vec<Vec<Op>> = (0..nb).map(|_| s3[rng.below(s3.len())].clone()).collect();
             let bits = rng.below(1 << (nb * nb)) as u32;
